@@ -9,6 +9,9 @@
     num    S            Number(s)               S = s:<hex of UTF-8 bytes>
     pint   S A          parseInt(s, a)
     pfloat S            parseFloat(s)
+    lit    S            the program text S when it is exactly one numeric literal (else `other`)
+    istr   I            String(i) for an int64-kinded number Value i (decimal)
+    rt     X L          Number(String(x))
 -/
 import OttoVerif.Base.Proto
 import OttoVerif.C06.Spec
@@ -28,6 +31,10 @@ def resOut : Res → String
   | .num x => f64Out x
   | .rangeError => "throw:RangeError"
   | .syntaxError => "throw:SyntaxError"
+
+def optOut : Option FV → String
+  | some x => f64Out x
+  | none => "other"
 
 def devOut (ds : List String) : String :=
   if ds.isEmpty then "-" else ",".intercalate ds
@@ -69,6 +76,15 @@ def handle (ws : List String) : String :=
   | ["pfloat", s] => match str? s with
     | some s => reply (f64Out (parseFloat s)) (f64Out (Spec.parseFloat s)) (Spec.Dev.pfloat s)
     | none => "bad-op"
+  | ["lit", s] => match str? s with
+    | some s => reply (optOut (literalValue s)) (optOut (Spec.literalValue s)) (Spec.Dev.lit s)
+    | none => "bad-op"
+  | ["istr", i] => match int? i with
+    | some i => reply (resOut (.str (formatInt i 10))) (resOut (.str (Spec.toStringNum (ofInt i)))) (Spec.Dev.istr i)
+    | none => "bad-op"
+  | ["rt", x, l] => match f64? x, f64? l with
+    | some x, some l => reply (f64Out (stringToNumber (numToString L x l))) (f64Out (Spec.roundTrip x)) []
+    | _, _ => "bad-op"
   | _ => "bad-op"
 
 end OttoVerif.C06.Driver
